@@ -113,7 +113,7 @@ pub fn project(name: &str) -> Project {
             let e4 = |x: &str| format!("{x}\n-TXTPP#temp x.txtpp\n-overwritten\n");
             let xs = |x: &str| format!("{x}\n");
             // a tag that is stored and never used: the error is only detected at the end of the file
-            let e5 = |x: &str| format!("{x}\n-TXTPP#temp e5.tmp\n-body\n-TXTPP#tag T\n-TXTPP#write w\nlast line\n");
+            let e5 = |x: &str| format!("{x}\n-TXTPP#temp e5.tmp\n-body\n+TXTPP#tag T\n-TXTPP#write w\nlast line\n");
             Project {
                 name: name.into(),
                 sources: vec![
